@@ -28,9 +28,27 @@
 (*           reexp   : Seq(FileId),  `export {v as v_t, ...} from "./t.js"` *)
 (*                      (module requests after the imports, in this order)  *)
 (*           dyn     : Seq(FileId),  `import("./t.js")` at top level        *)
-(*           exports : BOOLEAN ]     declares `export let v`, `export let   *)
+(*           exports : BOOLEAN,      declares `export let v`, `export let   *)
 (*                      c` (mutated by `export function bump`)              *)
-(* A symbol is [file, name]; the names a file declares are OwnNames.        *)
+(*           sfx     : STRING,       the top-level names of the file are    *)
+(*                      v\o sfx, c\o sfx, bump\o sfx, id\o sfx, helper\o sfx *)
+(*                      ("", "2", "3": the collision renamers' own scheme)   *)
+(*           dflt    : BOOLEAN,      has `export default <expr>`            *)
+(*           rx      : Seq([to : FileId, kind : STRING]) ]  re-export       *)
+(*                      statements after the imports and reexp:             *)
+(*                      "star"   export * from "./t.js"                     *)
+(*                      "named"  export {a, b, ...} from "./t.js" (every     *)
+(*                               name t exports, own or re-exported)        *)
+(*                      "rename" export {a as a_t, ...} from "./t.js"       *)
+(*                               (reexp is a sequence of such edges)        *)
+(*                      "imex"   import {a as l, ...} from "./t.js";        *)
+(*                               export {l as a, ...}                       *)
+(*                      "ns"     export * as ns_t from "./t.js"             *)
+(* A symbol is [file, name] (name "default" = the default export, "*" = the *)
+(* namespace object of the file); the names a file declares are OwnNames.   *)
+(* The resolved export table of a file (TableOf) follows re-export chains   *)
+(* of any depth with the ES rules for `export *` (no default, explicit      *)
+(* exports shadow star exports, ambiguous star names are dropped).          *)
 (*                                                                          *)
 (* L == [ files   : [FileId -> [live, bits, isEntry]],                      *)
 (*        entries : set of entry ids (the elements of the bit sets),        *)
@@ -40,7 +58,11 @@
 (*                     importsFrom : SUBSET [chunk, alias]]],               *)
 (*        assigns : SUBSET [by, file, name]   code of file `by` assigns to  *)
 (*                                            the symbol [file, name]       *)
-(*        uses    : SUBSET [by, file, name] ]  top-level reads              *)
+(*        uses    : SUBSET [by, file, name],   top-level reads              *)
+(*        eexports: SUBSET [entry, file, name] ]  the entry point exports   *)
+(*                                            the symbol [file, name]       *)
+(* The export aliases of a chunk are assigned by a model of the linker's    *)
+(* ExportRenamer (RenameAll) run over the chunk's exported symbols.         *)
 (***************************************************************************)
 EXTENDS Integers, Sequences, FiniteSets, TLC
 
@@ -53,7 +75,8 @@ SeqToSet(s) == {s[i] : i \in 1..Len(s)}
 FileIds(G) == 1..Len(G.files)
 ImportTargets(G, f) == [i \in 1..Len(G.files[f].imports) |-> G.files[f].imports[i].to]
 \* the module requests of f in source order (import statements, then export-from statements)
-StaticSeq(G, f) == ImportTargets(G, f) \o G.files[f].reexp
+RxTargets(G, f) == [i \in 1..Len(G.files[f].rx) |-> G.files[f].rx[i].to]
+StaticSeq(G, f) == ImportTargets(G, f) \o G.files[f].reexp \o RxTargets(G, f)
 StaticTargets(G, f) == SeqToSet(StaticSeq(G, f))
 DynTargets(G, f) == SeqToSet(G.files[f].dyn)
 UserEntries(G) == SeqToSet(G.entries)
@@ -113,31 +136,99 @@ ChunkKeysIn(G, reach) == {{e} : e \in DOMAIN reach} \cup {EntryBitsIn(reach, f) 
 ChunkKeys(G) == ChunkKeysIn(G, ReachOf(G))
 ChunkOf(G, f) == EntryBits(G, f)
 
-\* export table of a file: own bindings and one level of named re-exports
-OwnNames(G, f) == IF G.files[f].exports THEN {"v", "c", "bump"} ELSE {}
+\* export table of a file: own bindings and re-exports of any depth (static imports are acyclic).
+\* A table entry is [alias, file, name, kind]: the file exports the symbol [file, name] as `alias`;
+\* kind is "v", "c", "bump" (the binding triple of a file), "default", "ns" (a namespace object),
+\* "peek", "poke" (the observers a user entry point exports); tail is what the re-export statements on the way
+\* appended to the original name (the three bindings of a file travel together and share their tail).
+Triple == {"v", "c", "bump"}
+OwnNames(G, f) == IF G.files[f].exports THEN {k \o G.files[f].sfx : k \in Triple} ELSE {}
+ObserverName(G, f, p) == p \o "_" \o G.files[f].name
+OwnTable(G, f) ==
+  (IF G.files[f].exports
+   THEN {[alias |-> k \o G.files[f].sfx, file |-> f, name |-> k \o G.files[f].sfx, kind |-> k, tail |-> ""] : k \in Triple} ELSE {}) \cup
+  (IF G.files[f].dflt THEN {[alias |-> "default", file |-> f, name |-> "default", kind |-> "default", tail |-> ""]} ELSE {}) \cup
+  (IF f \in UserEntries(G)
+   THEN {[alias |-> ObserverName(G, f, p), file |-> f, name |-> ObserverName(G, f, p), kind |-> p, tail |-> ""] : p \in {"peek", "poke"}} ELSE {})
 ReAlias(n, tname) == n \o "_" \o tname
-ExportsOf(G, f) ==
-  {[alias |-> n, file |-> f, name |-> n] : n \in OwnNames(G, f)} \cup
-  UNION {{[alias |-> ReAlias(n, G.files[t].name), file |-> t, name |-> n] : n \in OwnNames(G, t)}
-           : t \in SeqToSet(G.files[f].reexp)}
+RxEdges(G, f) == [i \in 1..Len(G.files[f].reexp) |-> [to |-> G.files[f].reexp[i], kind |-> "rename"]] \o G.files[f].rx
+RECURSIVE TableOf(_, _)
+\* the entries one re-export statement adds explicitly (star adds none: see StarPart)
+EdgePart(G, e) ==
+  LET tn == G.files[e.to].name
+  IN CASE e.kind \in {"named", "imex"} -> TableOf(G, e.to)
+       [] e.kind = "rename" -> {[x EXCEPT !.alias = ReAlias(@, tn), !.tail = ReAlias(@, tn)] : x \in TableOf(G, e.to)}
+       [] e.kind = "ns"     -> {[alias |-> "ns_" \o tn, file |-> e.to, name |-> "*", kind |-> "ns", tail |-> ""]}
+       [] OTHER             -> {}
+ExplicitTable(G, f) ==
+  LET es == RxEdges(G, f) IN OwnTable(G, f) \cup UNION {EdgePart(G, es[i]) : i \in 1..Len(es)}
+\* `export *`: every name of the target but default, unless exported explicitly here or ambiguous
+StarPart(G, f, explicit) ==
+  LET es   == RxEdges(G, f)
+      cand == UNION {{x \in TableOf(G, es[i].to) : x.alias # "default"} : i \in {j \in 1..Len(es) : es[j].kind = "star"}}
+  IN {x \in cand : /\ \A y \in explicit : y.alias # x.alias
+                   /\ \A y \in cand : y.alias = x.alias => (y.file = x.file /\ y.name = x.name)}
+TableOf(G, f) == LET ex == ExplicitTable(G, f) IN ex \cup StarPart(G, f, ex)
+\* the program is well formed: no name is exported twice explicitly, no import names an ambiguous star export
+WellFormedFile(G, f) == \A x, y \in ExplicitTable(G, f) : x.alias = y.alias => x = y
+ExportsOf(G, f) == {[alias |-> x.alias, file |-> x.file, name |-> x.name] : x \in TableOf(G, f)}
 Sym(x) == [file |-> x.file, name |-> x.name]
-\* symbols the code of f refers to (imports are followed to the declaring file, as ImportsToBind does)
+\* symbols the code of f refers to (imports are followed to the declaring file, as ImportsToBind does);
+\* a re-export statement is not a use
 UsesOf(G, f) ==
-  UNION {{Sym(x) : x \in ExportsOf(G, G.files[f].imports[i].to)}
+  UNION {{Sym(x) : x \in TableOf(G, G.files[f].imports[i].to)}
            : i \in {j \in 1..Len(G.files[f].imports) : G.files[f].imports[j].bind}}
-\* an entry point chunk also needs every binding the entry point exports
-EntryExportSyms(G, e) == {Sym(x) : x \in ExportsOf(G, e)}
+\* an entry point chunk also needs every binding the entry point exports, whatever chain of
+\* re-exports it arrives through
+EntryExportSyms(G, e) == {Sym(x) : x \in TableOf(G, e)}
 \* the only assignments of this alphabet: `bump` of f assigns f's own `c`
-AssignsOf(G, f) == IF G.files[f].exports THEN {[file |-> f, name |-> "c"]} ELSE {}
+AssignsOf(G, f) == IF G.files[f].exports THEN {[file |-> f, name |-> "c" \o G.files[f].sfx]} ELSE {}
 
-\* an injective alias for a symbol exported from its chunk
+\* an injective abstract alias for a symbol exported from its chunk (kept for reference; Compute
+\* assigns aliases with the renamer model below)
 AliasOf(G, s) == s.name \o "$" \o G.files[s.file].name
+
+\* The linker's ExportRenamer (internal/renamer/renamer.go NextRenamedName), used by
+\* computeCrossChunkDependencies to name the exports of a chunk: `used` is a set of <<name, tries>>;
+\* a name that is free is taken as it is, otherwise a number is appended until the result is free,
+\* and the RESULT is marked as used (marksNew; FALSE is the damaged renamer of LinkSanity).
+UsedNames(used) == {u[1] : u \in used}
+TriesOf(used, nm) == (CHOOSE u \in used : u[1] = nm)[2]
+RECURSIVE NextFree(_, _, _)
+NextFree(prefix, tries, used) ==
+  LET nm == prefix \o ToString(tries + 1)
+  IN IF nm \in UsedNames(used) THEN NextFree(prefix, tries + 1, used) ELSE <<nm, tries + 1>>
+RenameStep(used, nm, marksNew) ==
+  IF nm \in UsedNames(used)
+  THEN LET r == NextFree(nm, TriesOf(used, nm), used)
+       IN [alias |-> r[1],
+           used  |-> IF marksNew THEN used \cup {r}
+                     ELSE {u \in used : u[1] # nm} \cup {<<nm, r[2]>>}]
+  ELSE [alias |-> nm, used |-> used \cup {<<nm, 1>>}]
+RECURSIVE RenameAll(_, _, _)
+\* the aliases of a sequence of original names
+RenameAll(names, used, marksNew) ==
+  IF names = <<>> THEN <<>>
+  ELSE LET st == RenameStep(used, Head(names), marksNew)
+       IN <<st.alias>> \o RenameAll(Tail(names), st.used, marksNew)
+\* the original name of a symbol as the linker sees it
+OrigName(G, s) == CASE s.name = "default" -> G.files[s.file].name \o "_default"
+                    [] s.name = "*"       -> G.files[s.file].name \o "_exports"
+                    [] OTHER              -> s.name
+\* the exported symbols of a chunk in a stable order: by file, then in an arbitrary fixed order
+RECURSIVE ExportSeqFrom(_, _)
+ExportSeqFrom(S, q) == IF q = <<>> THEN <<>> ELSE AnySeq({s \in S : s.file = Head(q)}) \o ExportSeqFrom(S, Tail(q))
+ExportSeq(S) == ExportSeqFrom(S, SortInts({s.file : s \in S}))
+AliasTable(G, S, marksNew) ==
+  LET sq == ExportSeq(S)
+      al == RenameAll([i \in 1..Len(sq) |-> OrigName(G, sq[i])], {}, marksNew)
+  IN [s \in S |-> al[CHOOSE i \in 1..Len(sq) : sq[i] = s]]
 
 \* the global evaluation order (all entry points, user entries first), used to order files inside a chunk
 GlobalOrder(G) ==
   EvalOrder(SrcChildren(G), G.entries \o SortInts(DynEntries(G) \ UserEntries(G)), {})
 
-Compute(G) ==
+ComputeWith(G, marksNew) ==
   \* TLCEval: TLC evaluates LET-bound functions lazily and without memoisation;
   \* forcing them keeps Compute linear in the size of the graph
   LET live    == TLCEval(Live(G))
@@ -154,6 +245,8 @@ Compute(G) ==
                     (IF isEntryChunk(K) THEN EntryExportSyms(G, entryOf(K)) ELSE {})])
       foreign == TLCEval([K \in keys |-> {s \in needs[K] : bits[s.file] # K}])
       allForeign == TLCEval(UNION {foreign[K2] : K2 \in keys})
+      \* computeCrossChunkDependencies: the alias table of every chunk
+      alias   == TLCEval([K \in keys |-> AliasTable(G, {s2 \in allForeign : bits[s2.file] = K}, marksNew)])
       \* computeCrossChunkDependencies
       symImports  == [K \in keys |-> {bits[s.file] : s \in foreign[K]}]
       sideImports == [K \in keys |->
@@ -171,11 +264,13 @@ Compute(G) ==
                        order   |-> SelectSeq(order, LAMBDA f : f \in filesOf[K]),
                        imports |-> {[chunk |-> K2, kind |-> "static"] : K2 \in symImports[K] \cup sideImports[K]} \cup
                                    {[chunk |-> K2, kind |-> "dynamic"] : K2 \in dynImports[K]},
-                       exports |-> {[alias |-> AliasOf(G, s), file |-> s.file, name |-> s.name]
+                       exports |-> {[alias |-> alias[K][s], file |-> s.file, name |-> s.name]
                                       : s \in {s2 \in allForeign : bits[s2.file] = K}},
-                       importsFrom |-> {[chunk |-> bits[s.file], alias |-> AliasOf(G, s)] : s \in foreign[K]} ]],
+                       importsFrom |-> {[chunk |-> bits[s.file], alias |-> alias[bits[s.file]][s]] : s \in foreign[K]} ]],
        assigns |-> UNION {{[by |-> f, file |-> s.file, name |-> s.name] : s \in AssignsOf(G, f)} : f \in live},
-       uses    |-> UNION {{[by |-> f, file |-> s.file, name |-> s.name] : s \in UsesOf(G, f)} : f \in live} ]
+       uses    |-> UNION {{[by |-> f, file |-> s.file, name |-> s.name] : s \in UsesOf(G, f)} : f \in live},
+       eexports |-> UNION {{[entry |-> e, file |-> s.file, name |-> s.name] : s \in EntryExportSyms(G, e)} : e \in ents} ]
+Compute(G) == ComputeWith(G, TRUE)
 
 -----------------------------------------------------------------------------
 (* 3. Properties of a link result L                                         *)
@@ -257,6 +352,17 @@ UsesAreImportedAndInitialised(L) ==
              /\ \E i \in L.chunks[cu].importsFrom : i.chunk = cd /\
                    \E x \in L.chunks[cd].exports : x.alias = i.alias /\ x.file = u.file /\ x.name = u.name
 
+\* every binding an entry point exports is declared in its entry chunk or imported by it from
+\* the declaring chunk under an alias that names exactly this binding
+\* (a link result without the field eexports, as other state specifications may build it, satisfies this trivially)
+EntryExportsImported(L) ==
+  \A x \in (IF "eexports" \in DOMAIN L THEN L.eexports ELSE {}) :
+     \A ce \in {c \in ChunkIds(L) : L.chunks[c].isEntry /\ L.chunks[c].entry = x.entry} :
+        \A cd \in ChunksWith(L, x.file) :
+           ce # cd =>
+             \E i \in L.chunks[ce].importsFrom : i.chunk = cd /\
+                \E y \in L.chunks[cd].exports : y.alias = i.alias /\ y.file = x.file /\ y.name = x.name
+
 \* One-pass verdict: the names of the failing properties
 Failing(L) ==
   (IF ChunkPartition(L) THEN {} ELSE {"ChunkPartition"}) \cup
@@ -264,7 +370,8 @@ Failing(L) ==
   (IF NoStaticChunkCycle(L) THEN {} ELSE {"NoStaticChunkCycle"}) \cup
   (IF NoCrossChunkAssignment(L) THEN {} ELSE {"NoCrossChunkAssignment"}) \cup
   (IF ImportsResolveToExports(L) THEN {} ELSE {"ImportsResolveToExports"}) \cup
-  (IF EntryReachesItsCode(L) THEN {} ELSE {"EntryReachesItsCode"})
+  (IF EntryReachesItsCode(L) THEN {} ELSE {"EntryReachesItsCode"}) \cup
+  (IF EntryExportsImported(L) THEN {} ELSE {"EntryExportsImported"})
 
 -----------------------------------------------------------------------------
 (* Load semantics of a link result: loading the entry chunk of e evaluates  *)
